@@ -87,6 +87,7 @@ type Sim struct {
 	zrng          *Rng
 	recovering    bool
 	recSteps      int
+	orng          *Rng
 	lastMalformed malformedCase
 	lastReload    reloadResult
 }
